@@ -523,7 +523,7 @@ func (k *checker) readPaths(want []pred.Row, matching []pred.Row) {
 	// single-record finders: only without explicit order/limit/offset
 	if len(cc.calls) == 0 && cc.order == "" {
 		byID := sortRows(matching, "id")
-		for _, name := range []string{"First", "Last", "Take", "First*", "TakeMap"} {
+		for _, name := range []string{"First", "Last", "Take", "First*", "TakeMap", "First[]", "Last[]*", "Take[]", "Take[]map", "First[2]"} {
 			var r pred.Row
 			var e error
 			var ra int64
@@ -542,6 +542,46 @@ func (k *checker) readPaths(want []pred.Row, matching []pred.Row) {
 				x := cc.build(root).First(&p)
 				e, ra = x.Error, x.RowsAffected
 				r = *p
+			case "First[]", "Take[]":
+				// a single-record finder keeps its meaning whatever the destination holds: one record, or not found
+				var rs []pred.Row
+				x := cc.build(root).First(&rs)
+				if name == "Take[]" {
+					rs = nil
+					x = cc.build(root).Take(&rs)
+				}
+				e, ra = x.Error, x.RowsAffected
+				if e == nil && len(rs) != 1 {
+					k.add("%s filled the slice with %d records", name, len(rs))
+				}
+				if len(rs) > 0 {
+					r = rs[0]
+				}
+			case "Last[]*":
+				var rs []*pred.Row
+				x := cc.build(root).Last(&rs)
+				e, ra = x.Error, x.RowsAffected
+				if e == nil && len(rs) != 1 {
+					k.add("%s filled the slice with %d records", name, len(rs))
+				}
+				if len(rs) > 0 {
+					r = *rs[0]
+				}
+			case "First[2]":
+				var rs [2]pred.Row
+				x := cc.build(root).First(&rs)
+				e, ra = x.Error, x.RowsAffected
+				r = rs[0]
+			case "Take[]map":
+				var ms []map[string]interface{}
+				x := cc.build(root.Model(&pred.Row{})).Take(&ms)
+				e, ra = x.Error, x.RowsAffected
+				if e == nil && len(ms) != 1 {
+					k.add("%s filled the slice with %d maps", name, len(ms))
+				}
+				if e == nil && len(ms) > 0 {
+					r, e = fromMap(ms[0])
+				}
 			case "TakeMap":
 				m := map[string]interface{}{}
 				x := cc.build(root.Model(&pred.Row{})).Take(&m)
@@ -564,11 +604,11 @@ func (k *checker) readPaths(want []pred.Row, matching []pred.Row) {
 				k.add("%s RowsAffected=%d", name, ra)
 			}
 			switch name {
-			case "First", "First*":
+			case "First", "First*", "First[]", "First[2]":
 				if !rowEq(r, byID[0]) {
 					k.add("%s returned %s, lowest key match is %s", name, r, byID[0])
 				}
-			case "Last":
+			case "Last", "Last[]*":
 				if !rowEq(r, byID[len(byID)-1]) {
 					k.add("%s returned %s, highest key match is %s", name, r, byID[len(byID)-1])
 				}
